@@ -116,6 +116,7 @@ def s_C18(tier, rng):
     return [("corpus", gen.corpus()),
             ("eq_pairs", gen.eq_pairs(tier, rng, Q(tier, 3000, 50000))),
             ("eq_after_exhaustion", gen.eq_after_exhaustion(rng)),
+            ("eq_static_slices", gen.eq_static_slices(rng, Q(tier, 200, 2000))),
             ("keyfill", gen.keyfill(tier, rng)),
             ("serde_roundtrip", gen.serde_roundtrip(tier, rng, Q(tier, 400, 4000)))]
 
@@ -123,14 +124,14 @@ ALLMON = ["C01", "C02", "C04", "C06", "C07", "C08", "C10", "C12", "C13", "C14", 
 
 PROPS = {
     "C01": {"streams": s_C01, "monitors": ["C01"], "conc_monitors": ["C03", "C05", "C16"]},
-    "C02": {"streams": s_C02, "monitors": ["C02"]},
+    "C02": {"streams": s_C02, "monitors": ["C02"], "props_extra": ["C02H"]},
     "C04": {"streams": s_C04, "monitors": ["C04"], "conc_monitors": ["C05", "PANIC"]},
-    "C06": {"streams": s_C06, "monitors": ["C06"]},
+    "C06": {"streams": s_C06, "monitors": ["C06", "C01", "C02"], "props_extra": ["C06B"]},
     "C07": {"streams": s_C07, "monitors": ["C07"], "conc_monitors": ["C07"]},
     "C08": {"streams": s_C08, "monitors": ["C08"]},
     "C10": {"streams": s_C10, "monitors": ["C10"]},
-    "C12": {"streams": s_C12, "monitors": ["C12"]},
-    "C13": {"streams": s_C13, "monitors": ["C13"]},
+    "C12": {"streams": s_C12, "monitors": ["C12", "C01", "C02"]},
+    "C13": {"streams": s_C13, "monitors": ["C13", "C01", "C02", "C07", "C08", "C10"]},
     "C14": {"streams": s_C14, "monitors": ["C14", "C01", "C02", "C10"]},
     "C15": {"streams": s_C15, "monitors": ALLMON},
     "C16": {"streams": s_C16, "monitors": ["C16"], "conc_monitors": ["C16"], "forwarding": True, "facts": True, "props_extra": ["C16F"]},
